@@ -403,7 +403,7 @@ def snapReferents (st : St) (res : List String) : Option String :=
       else none)
 
 def pairW (st : St) (op res : List String) : St × String :=
-  -- C08: a lookup is a query that answers for every address and every limit (`findLos_total`, `findLos_none_of_no_vo`);
+  -- C08: a lookup is a query that answers for every address and every limit (`findLos_none_of_no_vo`, `findLos_reads_mapped_only`);
   -- a process that dies inside it (the runner's `crash:rc=N`) broke the property, it is not a machinery error
   if op.head? == some "findint" && (res.headD "").startsWith "crash:" then
     (st, viol "gc:findint-crash" s!"the process died in find_object_from_internal_pointer({" ".intercalate (op.drop 1)}): {res.headD ""}")
